@@ -1,4 +1,5 @@
 import SJ.Proofs.ValueEq
+import SJ.Proofs.MapRef
 /-!
 # C17 — objects behave as dictionaries; equality and hashing ignore order
 
@@ -98,6 +99,12 @@ theorem c17_refines_btree_history (ops : List (Op V)) (hd : ∀ o ∈ ops, o.inD
 theorem c17_refines_index_history (ops : List (Op V)) :
     Run ops empty (absm (Model.MapIndex.run ops).1) (Model.MapIndex.run ops).2 :=
   index_runFrom Model.MapIndex.Reachable.new ops
+
+/-- The computable reference the driver runs beside the implementation (`Spec.AMap.Ref`: an
+    association list where `insert` conses and the first match wins) obeys the same contract, so a
+    return value or content it rejects is rejected by the function-level dictionary too. -/
+theorem c17_ref_sound (o : Op V) (r : Ref V) : Step o (Ref.sem r) (Ref.sem (Ref.step o r).1) (Ref.step o r).2 :=
+  Proofs.MapRef.step_sound o r
 
 /-! ## (c) equality ignores order -/
 
